@@ -822,8 +822,10 @@ func (w *Wallet) CheckMeltQuoteState(quoteId string) (*nut05.PostMeltQuoteBolt11
 			}
 
 			pendingProofs := w.db.GetPendingProofsByQuoteId(quoteId)
-			var keysetId string
-			if len(pendingProofs) > 0 {
+			// the change outputs were derived from the keyset that was active
+			// when the melt was made, not from the keyset of the inputs
+			keysetId := quote.ChangeKeysetId
+			if keysetId == "" && len(pendingProofs) > 0 {
 				keysetId = pendingProofs[0].Id
 			}
 			if err := w.db.DeletePendingProofsByQuoteId(quoteId); err != nil {
@@ -958,6 +960,7 @@ func (w *Wallet) Melt(quoteId string) (*nut05.PostMeltQuoteBolt11Response, error
 		}
 	case nut05.Pending:
 		quote.State = nut05.Pending
+		quote.ChangeKeysetId = activeKeyset.Id
 		if err := w.db.SaveMeltQuote(*quote); err != nil {
 			return nil, fmt.Errorf("error updating melt quote: %v", err)
 		}
